@@ -657,4 +657,5 @@ RULES = [
 	('20.h', 'start-up sync: disconnect to the fork point, connect only above each listener, abort on fetch failure', r20h),
 	('20.v', 'field-versus-field comparisons (a received value against a limit, an id against an id) are the reviewed ones: same fields, same operator (rules/provenance.py)', lambda F: provenance.cmps_for_property(F, 'C20', '20.v')),
 	('20.z', 'named protocol / policy constants in this property\'s files have their reviewed values (rules/provenance.py)', lambda F: provenance.consts_for_property(F, 'C20', '20.z')),
+	('20.y', 'no reviewed function gained a swallowed error (the Result of a fallible in-crate call dropped; rules/provenance.py)', lambda F: provenance.dr_for_property(F, 'C20', '20.y')),
 ]
